@@ -44,7 +44,7 @@ kf("K1-C02", "P7 literal-line-trailing-blanks", "C02", r"^C02\|rendering-differs
 
 # --------------------------------------------------------------------------- K2: math row trailing comma (P13)
 P13 = "a line comment inside a row of 2D math arguments forces the broken layout, which adds a trailing comma to the row (an extra empty cell); pinned by the repository's own snapshot unit/comment/in-math.typ, so it cannot be repaired without editing the suite"
-ROW = r"dev=math:\w+>Array\[[^\]]*\]:(lc|lc_sp|lc_lc|nl_lc|off_lc)"
+ROW = r"dev=math:\w+>Array\[[^\]]*\]:(lc|lc_sp|lc_lc|nl_lc|off_lc|off_reason)"
 kf("K2-C01", "P13 math-row-trailing-comma", "C01", r"^C01\|tree\|(.*&)?" + ROW, "$mat(x,//c1\ny; z, u)$", P13, "tree")
 kf("K2-C02", "P13 math-row-trailing-comma", "C02", r"^C02\|rendering-differs\|(.*&)?" + ROW, PRELUDE + "$mat(x,//c1\ny; z, u)$", P13, "rendering-differs")
 kf("K2-C03", "P13 math-row-trailing-comma", "C03", r"^C03\|not-idempotent\|(.*&)?" + ROW, "$mat(x,//c1\ny; z, u)$", P13 + " - and the second pass moves it", "not-idempotent")
@@ -53,7 +53,7 @@ kf("K2-C13", "P13 math-row-trailing-comma", "C13", r"^C13\|splice-changes-tree\|
 # --------------------------------------------------------------------------- K3: adjacent block comments in math (P16)
 P16 = "two adjacent block comments inside math delimiters get a space between them: whitespace is created between math atoms where the source had none"
 kf("K3-C01", "P16 math-adjacent-comments", "C01", r"^C01\|tree\|(.*&)?dev=math:\w+>MathDelimited\[[^\]]*\]:bc_bc", "$(/*c1*//*c2*/x)$", P16, "tree")
-kf("K3-C03", "P16 math-adjacent-comments", "C03", r"^C03\|not-idempotent\|(.*&)?dev=math:\w+>(MathDelimited|MathFrac|MathAttach|MathRoot)\[[^\]]*\]:(bc_bc|bc|lc|lc_sp|lc_lc|nl_lc|bc_sp|off_lc|off_bc)$", "$f(#1//c1\n)$", "a comment inside math delimiters gets its separating space from two places; the second pass adds another space (converges after two passes)", "not-idempotent")
+kf("K3-C03", "P16 math-adjacent-comments", "C03", r"^C03\|not-idempotent\|(.*&)?dev=math:\w+>(MathDelimited|MathFrac|MathAttach|MathRoot)\[[^\]]*\]:(bc_bc|bc|lc|lc_sp|lc_lc|nl_lc|bc_sp|off_lc|off_bc|off_tight|off_reason|off_mid)[|&]", "$f(#1//c1\n)$", "a comment inside math delimiters gets its separating space from two places; the second pass adds another space (converges after two passes)", "not-idempotent")
 kf("K3-C09", "P16 math-adjacent-comments", "C09", r"^C09\|ws-added\|extra=math:\w+:(.*[+⏎_])?/\*c\*/\+/\*c\*/", "$(/*c*//*c*/)$", P16, "ws-added")
 
 # --------------------------------------------------------------------------- K4: line break before a comment in math becomes a space (P17)
@@ -61,7 +61,7 @@ kf("K4-C09", "P17 math-break-next-to-comment", "C09", r"^C09\|break-to-space\|ex
 
 # --------------------------------------------------------------------------- K5: block comment before a list marker (P15)
 P15 = "a multi-line block comment directly in front of a list/enum/term marker after '[': the comment's continuation lines are re-indented but the marker keeps following it, so the marker's column - and with it the nesting of the following lines - changes"
-MARK = r"dev=markup:\w+>ContentBlock\[LeftBracket\^(List|Enum|Term)Marker\]:(bc_star|bc_ml)"
+MARK = r"dev=markup:\w+>ContentBlock\[LeftBracket\^(List|Enum|Term)Marker\]:(bc_star|bc_ml|bc_ws_line|bc_blank|bc_tab|bc_uni)"
 kf("K5-C01", "P15 comment-before-list-marker", "C01", r"^C01\|tree\|(.*&)?" + MARK, "#g[/* c1\n * d\n */- foo\n    bar\n]", P15, "tree")
 kf("K5-C03", "P15 comment-before-list-marker", "C03", r"^C03\|not-idempotent\|(.*&)?" + MARK, "#g[/* c1\n * d\n */- foo\n    bar\n]", P15, "not-idempotent")
 kf("K5-C13", "P15 / list item not at line start", "C13", r"^C13\|splice-changes-tree\|((.*&)?dev=markup:\w+>ContentBlock\[LeftBracket\^(List|Enum|Term)Marker\]|spine=\w+/(content\w*|strong|emph)(@\d)?/(list|enum|term)\w*\|)", "#g[- foo\n    bar\n]", "range formatting infers the indentation of a list item from the leading blanks of its line; an item that starts after '[' on the same line is re-indented relative to column 0 and its continuation lines leave the item", "splice-changes-tree")
@@ -81,24 +81,27 @@ kf("K7-C10", "P1 paren-removal-fuses-literal", "C10", r"^C10\|literal-changed\|(
 # --------------------------------------------------------------------------- K8: convergence classes
 E = "a node that always breaks (code block with two statements or with a comment, an import list at width 0, a table) inside a context where line breaks are suppressed (a line of text, an equation): the first pass emits the hard breaks inside an otherwise flat layout, the second pass then sees a multi-line source and lays the surroundings out differently (converges after two passes)"
 kf("K8a-C03", "E forced-break-under-suppression", "C03", r"^C03\|not-idempotent\|spine=(mixed|math_i|math_b|math_hash|item|heading|strong)/.*(block2_semi|block2_ml|import\w*|table\w*|grid\w*)\|size=", "foo #({a; b},) bar", E, "not-idempotent")
-kf("K8b-C03", "E forced-break-under-suppression", "C03", r"^C03\|not-idempotent\|(.*&)?dev=code:\w+>(CodeBlock|Code)\[[^\]]*\]:(bc|bc_sp|bc_ml|bc_star|bc_bc|nl_bc_nl|lc|lc_sp|lc_lc|nl_lc|off_bc|off_lc)", "$#g({a/*c1*/})$", E, "not-idempotent")
-kf("K8c-C03", "E / trivia inside a field access chain", "C03", r"^C03\|not-idempotent\|(.*&)?dev=\w+:\w+>FieldAccess\[", "#a.f({b; c}).\ng(d)", "a line break or comment inside a method chain whose call arguments hold a node that always breaks: " + E, "not-idempotent")
+kf("K8k-C03", "E forced-break-under-suppression (with a deviation elsewhere)", "C03", r"^C03\|not-idempotent\|dev=.*\|at=(mixed|math_i|math_b|math_hash|hash|item|heading|strong|let|arg|doc)/.*(block2_semi|block2_ml)", "#if a { {b; c} } elseif d { e }", E, "not-idempotent")
+kf("K6-C03", "D5 list-after-bracket-unbreakable", "C03", r"^C03\|not-idempotent\|(spine|dev=.*\|at)=(mixed|strong|heading|item)/content\w*@0/(list|enum|term)\w*", "foo #[- foo\n- bar] bar", D5 + " - with tab width 8 the first pass nests the second item and the second pass nests it further", "not-idempotent")
+kf("K8l-C03", "directive at the end of a list item line", "C03", r"^C03\|not-idempotent\|(.*&)?dev=markup:ListItem>Markup\[Text\^ListMarker\]:(off_lc|off_reason)", "#g[\n  - foo// @typstyle off\n- bar\n      - baz\n]", "a line-comment directive at the end of a list item line protects the following list item; its verbatim text keeps the source indentation, which the next pass reads as a different nesting", "not-idempotent")
+kf("K8b-C03", "E forced-break-under-suppression", "C03", r"^C03\|not-idempotent\|(.*&)?dev=code:\w+>(CodeBlock|Code)\[[^\]]*\]:(bc|bc_sp|bc_ml|bc_star|bc_bc|nl_bc_nl|lc|lc_sp|lc_lc|nl_lc|off_bc|off_lc|off_tight|off_reason|off_mid|bc_ws_line|bc_blank|bc_tab|bc_uni)", "$#g({a/*c1*/})$", E, "not-idempotent")
+kf("K8c-C03", "E / trivia inside a field access chain", "C03", r"^C03\|not-idempotent\|(.*&)?dev=\w+:\w+>FieldAccess\[.*\|at=.*(block2_semi|block2_ml|import\w*|table\w*|grid\w*)", "#a.f({b; c}).\ng(d)", "a line break or comment inside a method chain whose call arguments hold a node that always breaks: " + E, "not-idempotent")
 kf("K8d-C03", "H asymmetric content block edge", "C03", r"^C03\|not-idempotent\|(.*&)?dev=markup:\w+>ContentBlock\[(LeftBracket\^\w+|\w+\^RightBracket)\]", "#[ $ x $]", "a content block with a blank at only one of its inner edges whose content breaks at a narrow width: the first pass keeps the blank as a space because the source is on one line, the second pass sees a multi-line source and turns it into a line break", "not-idempotent")
-kf("K8e-C03", "P12 heading with line comment", "C03", r"^C03\|not-idempotent\|(.*&)?dev=markup:\w+>Heading\[HeadingMarker\^\w+\]:(lc|lc_sp|lc_lc|nl_lc|off_lc)", "=//c1\nfoo", "a line comment directly after a heading marker gains a space on the second pass", "not-idempotent")
-kf("K8f-C03", "adjacent comments after a chain operator", "C03", r"^C03\|not-idempotent\|(.*&)?dev=code:\w+>Binary\[\w+\^\w+\]:bc_bc", "#let v = a + b +/*c1*//*c2*/c", "two adjacent block comments after an operator of a broken binary chain are printed tight by the first pass and spaced by the second", "not-idempotent")
-kf("K8h-C03", "E / comment between call parts", "C03", r"^C03\|not-idempotent\|(.*&)?dev=markup:\w+>(FuncCall\[Ident\^LeftParen\]|Args\[RightParen\^LeftBracket\]):(bc|bc_sp|bc_ml|bc_star|bc_bc|sp|off_bc)", "#a({b; c})/*c1*/[foo]", "a comment (or blank) between the parts of a call whose argument holds a node that always breaks: " + E, "not-idempotent")
-kf("K8i-C03", "comment before ')' of a parenthesised import list", "C03", r"^C03\|not-idempotent\|(.*&)?dev=code:\w+>ModuleImport\[Ident\^RightParen\]:(bc|bc_sp|bc_ml|bc_star|bc_bc|off_bc)", "#{import \"m.typ\": (b, a/*c1*/)}", "a block comment before the closing parenthesis of an import list inside a code block: the first pass drops the parentheses and keeps the block on one line, the second pass breaks the block", "not-idempotent")
-kf("K8j-C03", "directive before an operand that gets optional parentheses", "C03", r"^C03\|not-idempotent\|(.*&)?dev=code:\w+>(ForLoop\[In\^\w+\]|Closure\[Arrow\^\w+\]):(off_bc|off_lc)", "#for p in/* @typstyle off */a { b }", "an '@typstyle off' comment in front of a for-loop iterable or a closure body: at a narrow width the verbatim operand is wrapped in optional parentheses/braces by the first pass and the rest of the statement is laid out differently by the second", "not-idempotent")
-kf("K8g-C03", "table.<newline>header", "C03", r"^C03\|not-idempotent\|(.*&)?dev=code:\w+>FieldAccess\[Dot\^Ident\]", "#(table(columns: 2, table.\nheader(a, b), c, d))", "'table.header' written with a line break after the dot is not recognised as a header row by the first pass (the callee text is compared verbatim), but is by the second", "not-idempotent")
+kf("K8e-C03", "P12 heading with line comment", "C03", r"^C03\|not-idempotent\|(.*&)?dev=markup:\w+>Heading\[HeadingMarker\^\w+\]:(lc|lc_sp|lc_lc|nl_lc|off_lc|off_reason)", "=//c1\nfoo", "a line comment directly after a heading marker gains a space on the second pass", "not-idempotent")
+kf("K8f-C03", "adjacent comments after a chain operator", "C03", r"^C03\|not-idempotent\|(.*&)?dev=code:\w+>(Binary\[\w+\^\w+\]|FieldAccess\[Dot\^Ident\]):bc_bc", "#let v = a + b +/*c1*//*c2*/c", "two adjacent block comments after an operator of a broken binary chain (or after the dot of a broken method chain) are printed tight by the first pass and spaced by the second", "not-idempotent")
+kf("K8h-C03", "E / comment between call parts", "C03", r"^C03\|not-idempotent\|(.*&)?dev=markup:\w+>(FuncCall\[Ident\^LeftParen\]|Args\[RightParen\^LeftBracket\]):(bc|bc_sp|bc_ml|bc_star|bc_bc|sp|off_bc|off_tight|off_mid|bc_ws_line|bc_blank|bc_tab|bc_uni).*\|at=.*(block2_semi|block2_ml|import\w*|table\w*|grid\w*)", "#a({b; c})/*c1*/[foo]", "a comment (or blank) between the parts of a call whose argument holds a node that always breaks: " + E, "not-idempotent")
+kf("K8i-C03", "comment before ')' of a parenthesised import list", "C03", r"^C03\|not-idempotent\|(.*&)?dev=code:\w+>ModuleImport\[Ident\^RightParen\]:(bc|bc_sp|bc_ml|bc_star|bc_bc|off_bc|off_tight|off_mid|bc_ws_line|bc_blank|bc_tab|bc_uni)", "#{import \"m.typ\": (b, a/*c1*/)}", "a block comment before the closing parenthesis of an import list inside a code block: the first pass drops the parentheses and keeps the block on one line, the second pass breaks the block", "not-idempotent")
+kf("K8j-C03", "directive before an operand that gets optional parentheses", "C03", r"^C03\|not-idempotent\|(.*&)?dev=code:\w+>(ForLoop\[In\^\w+\]|Closure\[(Arrow|Eq)\^\w+\]):(off_bc|off_lc|off_tight|off_reason|off_mid)", "#for p in/* @typstyle off */a { b }", "an '@typstyle off' comment in front of a for-loop iterable or a closure body: at a narrow width the verbatim operand is wrapped in optional parentheses/braces by the first pass and the rest of the statement is laid out differently by the second", "not-idempotent")
+kf("K8g-C03", "table.<newline>header", "C03", r"^C03\|not-idempotent\|(.*&)?dev=\w+:\w+>FieldAccess\[Dot\^Ident\].*\|at=.*(table_hdr\w*|table_ftr\w*|grid_ftr\w*)", "#(table(columns: 2, table.\nheader(a, b), c, d))", "'table.header' written with a line break after the dot is not recognised as a header row by the first pass (the callee text is compared verbatim), but is by the second", "not-idempotent")
 
 # --------------------------------------------------------------------------- K9: comment inside 'not in'
 kf("K9-C06", "comment inside 'not in'", "C06", r"^C06\|moved-across-word\|(.*&)?dev=code:\w+>Binary\[Not\^In\]", "#a(b not/*c1*/in c)", "a comment between the two words of the 'not in' operator is moved in front of 'not' (across a word, not only across punctuation)", "moved-across-word")
 
 # --------------------------------------------------------------------------- K10: comment at line start gets one extra space (P20)
-kf("K10-C12", "P20 comment-at-line-start-plus-one", "C12", r"^C12\|not-multiple-of-unit\|(.*&)?dev=(math|markup):\S+\]:(nl_lc|lc_lc|nl_bc_nl|off_lc)", "$(x\n//c1\n)$", "a comment that starts a line inside math delimiters, math arguments or a list item is indented by k*unit + 1: a separator space is emitted after the line break (pinned by the repository's snapshots unit/markup/term-indent.typ and unit/comment/in-math.typ)", "not-multiple-of-unit")
+kf("K10-C12", "P20 comment-at-line-start-plus-one", "C12", r"^C12\|not-multiple-of-unit\|(.*&)?dev=(math|markup):\S+\]:(nl_lc|lc_lc|nl_bc_nl|off_lc|off_reason)", "$(x\n//c1\n)$", "a comment that starts a line inside math delimiters, math arguments or a list item is indented by k*unit + 1: a separator space is emitted after the line break (pinned by the repository's snapshots unit/markup/term-indent.typ and unit/comment/in-math.typ)", "not-multiple-of-unit")
 
 # --------------------------------------------------------------------------- K12: recursion depth (P11)
-kf("K12-C05", "P11 recursion-depth", "C05", r"^C05\|nesting-beyond-required-depth\|ladder=", "", "the printer recurses over the tree and overflows an 8 MiB stack at nesting depths (between 4 096 and 16 384 levels) at which the parser alone still succeeds; success up to 2 048 levels is a hard condition of the check", None, {"ladder": 1, "depth": 16384})
+kf("K12-C05", "P11 recursion-depth", "C05", r"^C05\|nesting-beyond-required-depth\|ladder=", "", "the printer recurses over the tree and overflows an 8 MiB stack at nesting depths (between 4 096 and 16 384 levels) at which the parser alone still succeeds; success up to 2 048 levels is a hard condition of the check", None, {"ladder": "call", "depth": 16384})
 
 FIXED = [
   fixed("C01", "treat every Typst newline character", "CR / VT / FF / NEL / LS / PS inside whitespace were printed as a space: paragraph breaks vanished, line comments swallowed the next line (also C02 C04 C06 C08 C09)"),
@@ -122,6 +125,8 @@ FIXED = [
   fixed("C15", "format-all reports a file it cannot read", "an unreadable *.typ file below the directory was skipped silently, exit 0 (also C14)"),
   fixed("C06", "keep comments inside a field access that is not laid out as a chain", "'#if a/*c*/.f [..]' lost the comment (also C07: a directive there was lost)"),
   fixed("C19", "do not reorder import items when a comment sits inside an item", "'import \"m\": b as c, a./*c*/d' was sorted although it contains a comment"),
+  fixed("C03", "cap the blank lines kept before and after a list separator together", "blank lines before and after a comma were capped separately: up to four survived the first run, the next run reduced them"),
+  fixed("C19", "sort import items by their text with blanks normalised", "with reordering on, 'a  as y, a as x' (two blanks) kept its order in the first run and was swapped by the second (also C03)"),
   fixed("C01", "a list item on a later line must not strip the leading space of a content block", "'foo #[ text<newline>- item ] bar' lost the space after '['"),
 ]
 
